@@ -15,7 +15,7 @@ from vlib import enc_str
 from props import runner_gen as G
 
 THEOREMS = ["C03_labels", "C03_labels_none", "C03_step", "C03_refines", "C03_complete", "C03_spec_det",
-            "C03_error_position", "C03_continue_output", "C03_error_reported"]
+            "C03_error_position", "C03_continue_output", "C03_error_reported", "C03_nonvacuous"]
 FUEL = 400
 SCRATCH = os.path.join(vlib.ROOT, ".cache", "c03")
 
@@ -110,6 +110,40 @@ def shrink(ck, lines, cmds, vars_, src):
     return cur
 
 
+def replay(ck, data):
+    """vcheck Cxx --replay file: re-run the recorded case on both sides; status 1 if they still disagree"""
+    wire = data.get("wire")
+    print("script:\n" + str(data.get("script")))
+    if not wire:
+        print("replay: this file names a broken obligation, not an input; re-run the check itself")
+        return 1
+    ck.ocaml_build()
+    ck.harness_build([ck.prop.lower()])
+    m, i = ck.model([wire])[0], ck.impl([wire])[0]
+    print("model:          " + m)
+    print("implementation: " + i)
+    same = G.agree(m.split("\t"), i.split("\t")[:6], _cmds_of(wire))
+    print("REPLAY: " + ("agree now" if same else "still disagree"))
+    return 0 if same else 1
+
+
+def _cmds_of(wire):
+    """known scripted messages of a case line (for the message classification)"""
+    f = wire.split("\t")
+    cmds = {}
+    if f[5] != "-":
+        for c in f[5].split(";"):
+            n, cyc, rs = c.split("|")
+            out = []
+            if rs != "-":
+                for r in rs.split(","):
+                    r = r.lstrip("!")
+                    if r[0] in "EK":
+                        out.append((r[0], vlib.dec_str(r[1:])))
+            cmds[vlib.dec_str(n)] = (cyc == "1", out)
+    return cmds
+
+
 def run(ck):
     ck.gen_from_source()
     ck.coq_build(["props/C03.vo", "extract/C03_extract.vo"])
@@ -135,7 +169,7 @@ def run(ck):
     for k, (lines, cmds) in enumerate(ex):
         progs.append((lines, cmds, {}, {}, " ", None))
     n_exh = len(ex)
-    n_rand = 120000 if thorough else 16000
+    n_rand = 400000 if thorough else 40000
     for k in range(n_rand):
         lines, cmds, vars_, blanks, sp = G.rand_program(rng)
         src = None
